@@ -327,13 +327,13 @@ impl Scenario for C12 {
     fn meta(&self) -> Meta {
         Meta {
             level: "exploration",
-            rule: "One run = one seeded history of decoded records of 1-6 aircraft (every message kind the table reads, addresses partly one bit apart, non-monotone timestamps, a few address-less DF19/DF24) pushed through the re-stated main loop (real decode_position, update_snapshot, store_history) while /all readers (real web::all), lock-holders and a request canceller run as other tasks under the seeded scheduler. Distinct = distinct hash of the ordered poll/timer/update/observation log. Non-trivial = more than one runnable task at some step or a lock-holder/reader/cancellation fired, AND at least one table entry was checked against the oracle.",
+            rule: "One run = one seeded history of decoded records of 1-6 aircraft (every message kind the table reads, addresses partly one bit apart, non-monotone timestamps, a few address-less DF19/DF24) pushed through main()'s decoding loop (real decode_position, update_snapshot, store_history) while /all readers (real web::all), lock-holders and a request canceller run as other tasks under the seeded scheduler. Distinct = distinct hash of the ordered poll/timer/update/observation log. Non-trivial = more than one runnable task at some step or a lock-holder/reader/cancellation fired, AND at least one table entry was checked against the oracle.",
             components: vec![
                 ("jet1090::snapshot::update_snapshot / store_history", "real"),
                 ("jet1090::Jet1090 state behind Arc<tokio::sync::Mutex>", "real"),
                 ("jet1090::web::all (the /all handler) + warp/hyper reply body", "real"),
                 ("rs1090 decode_position, Message::try_from, serde serialisation", "real"),
-                ("lines of main()'s decoding loop that call the above in order", "stub (re-stated in driver/app.rs, with yields between the calls)"),
+                app::main_loop_component(),
                 ("record source, lock-holder (TUI draw stand-in), HTTP clients, canceller", "stub"),
                 ("aircraft database", "stub (empty map)"),
                 ("tokio runtime", "stub (seeded executor)"),
@@ -705,7 +705,7 @@ pub fn execute(plan: &C12Plan) -> Outcome<C12Plan> {
             store_history: true,
         };
         let app = app.clone();
-        sim.spawn("main-loop(stub)+update_snapshot/store_history(real)", app::main_loop(rx, app, BTreeMap::from([(7u64, reference)]), hooks))
+        sim.spawn("main-loop+update_snapshot/store_history(real)", app::main_loop(rx, app, BTreeMap::from([(7u64, reference)]), hooks))
     };
     // readers
     let mut cancels: Vec<(usize, u64, usize)> = Vec::new(); // (task, at, reader)
